@@ -190,6 +190,11 @@ mod test;
 
 mod mio_source;
 
+// Verification hooks (see /verif/DESIGN.md). Compiled only with `--cfg rustdds_verif`.
+#[cfg(rustdds_verif)]
+#[path = "/verif/incrate/mod.rs"]
+pub mod verif;
+
 // Public modules
 pub mod dds; // this is public, but not advertised
 
